@@ -534,6 +534,31 @@ impl Ctx {
         }
     }
 
+    /// Replay every stored regression case of this property (`regress/<id>/*.json`: shrunk
+    /// failures found earlier, most of them repaired by `fix:` commits since). They are ordinary
+    /// cases: anything that fails and is not a listed known finding is a violation.
+    pub fn replay_regress(&self, replay: &dyn Fn(&str, &Value, &mut Stats) -> Option<Vec<Failure>>) {
+        let dir = self.root.join("regress").join(&self.property);
+        let Ok(rd) = std::fs::read_dir(&dir) else { return };
+        let mut files: Vec<PathBuf> = rd.flatten().map(|e| e.path()).filter(|p| p.extension().map_or(false, |e| e == "json")).collect();
+        files.sort();
+        for f in files {
+            let Ok(text) = std::fs::read_to_string(&f) else { continue };
+            let Ok(v) = serde_json::from_str::<Value>(&text) else { infra_exit(&format!("regress file {} does not parse", f.display())) };
+            let check = v["check"].as_str().unwrap_or("").to_string();
+            let mut stats = Stats::default();
+            let Some(fails) = replay(&check, &v["input"], &mut stats) else {
+                infra_exit(&format!("regress file {} names unknown check {}", f.display(), check));
+            };
+            let unknown = self.triage(fails, &mut stats);
+            stats.count("regress_replayed", 1);
+            self.stats.lock().unwrap().merge(stats);
+            if let Some(first) = unknown.into_iter().next() {
+                self.record_violation(&check, v["input"].clone(), first.tag(format!("regress_file={}", f.file_name().unwrap().to_string_lossy())));
+            }
+        }
+    }
+
     /// Write evidence, print VIOLATION lines, return the exit code.
     pub fn finish(&self) -> i32 {
         if let Some(sv) = &self.survey {
